@@ -49,6 +49,18 @@ def zone_queries(zs, start_year, until_year, grid_s, local_step_min):
             for k in range(-200, 201, local_step_min):
                 locals_.append(base + dt.timedelta(minutes=k))
     instants.update(range(lo, hi, grid_s))
+    # the edges of the range as the zone's own clock sees them: instants just before `lo` (east of UTC) or just after `hi`
+    # (west of UTC) whose LOCAL date is still inside [start_year, until_year) - both implementations answer them
+    for k in range(0, 16):
+        for t in (lo - k * 3600 - 1800, lo - k * 3600 - 1, hi + k * 3600, hi + k * 3600 + 1799):
+            if lo <= t < hi:
+                continue
+            try:
+                info = zs.get_timezone_info_for_seconds(t)
+            except Exception:  # noqa
+                continue
+            if info is not None and lo <= t + info.total_offset < hi:
+                instants.add(t)
     return sorted(instants), locals_
 
 
@@ -78,7 +90,7 @@ def run(tier):
     for si, sh in enumerate(shards):
         wf = work / ("c04-%02d.pkl" % si)
         wf.write_bytes(pickle.dumps({"infos": {names[i]: infos[names[i]] for i in sh}, "index": {names[i]: i for i in sh},
-                                     "grid_s": grid_s, "step": step, "exe": str(exe)}))
+                                     "grid_s": grid_s, "step": step, "exe": str(exe), "lo": 0, "hi": 1577923200}))
         jobs.append(wf)
     import concurrent.futures as cf
     import json
@@ -126,7 +138,7 @@ def run(tier):
         for si, shn in enumerate([znames[i::N] for i in range(N) if znames[i::N]]):
             wf = work / ("c04-%s-%02d.pkl" % (pid, si))
             wf.write_bytes(pickle.dumps({"infos": {n: comp.zone_infos[n] for n in shn}, "index": {n: n for n in shn},
-                                         "grid_s": grid_s, "step": step, "exe": str(fexe)}))
+                                         "grid_s": grid_s, "step": step, "exe": str(fexe), "lo": 0, "hi": 1577923200}))
             fjobs.append(wf)
     with cf.ThreadPoolExecutor(max_workers=N) as ex:
         for o in ex.map(one, fjobs):
@@ -161,7 +173,7 @@ def run(tier):
         "rule": "same data on both sides: every zone of the shipped zonedbx is read back through the C++ brokers (codec driver) and "
                 "decoded into the Python data model; %s; plus tables compiled afresh by the real compiler from data/features.zi and "
                 "data/unsupported.zi (and tzdata 2025b in the thorough tier), where one compilation yields both the Python tables and the C++ tables. Instants: every transition the Python side computes +-{0,1,60} s, every "
-                "year boundary +-1 s, a %d s grid; local date-times: every %d min within +-200 min of each transition's wall-clock "
+                "year boundary +-1 s, a %d s grid, and instants up to 16 h outside [2000-01-01Z, 2050-01-01Z) whose local date (by the Python side's own answer) is inside the range; local date-times: every %d min within +-200 min of each transition's wall-clock "
                 "image. The C++ side answers a query file (getUtcOffset/getDeltaOffset/getAbbrev, ZonedDateTime::forComponents); "
                 "compared as (total, dst, abbreviation) and as resolved instants (local - python offset == C++ epoch seconds). "
                 "Options: all 387 zones, the 8 combinations {13,14} x {optimized,basic finder} x {in-place,basic selector} against "
@@ -203,6 +215,8 @@ def shard_main(wf):
         bad = 0
         for t, a in zip(instants, ans[:len(instants)]):
             c["instants"] = c.get("instants", 0) + 1
+            if not (w.get("lo", -10**12) <= t < w.get("hi", 10**12)):
+                c["instants_outside_utc_range_with_local_date_inside"] = c.get("instants_outside_utc_range_with_local_date_inside", 0) + 1
             info = zs.get_timezone_info_for_seconds(t)
             f = a.split()
             got = (f[1], f[2], "" if f[3] == "-" else f[3])
